@@ -38,6 +38,20 @@ impl UnixListener {
     }
 }
 
+impl UnixListener {
+    pub fn set_nonblocking(&self, nb: bool) -> io::Result<()> {
+        if self.epoch != world::epoch() {
+            return Err(ioerr(libc::EBADF));
+        }
+        with(|w| w.set_nonblocking(self.fd, nb)).map_err(ioerr)
+    }
+
+    /// SO_ERROR of a listening socket: never set in the simulation
+    pub fn take_error(&self) -> io::Result<Option<io::Error>> {
+        Ok(None)
+    }
+}
+
 impl AsRawFd for UnixListener {
     fn as_raw_fd(&self) -> RawFd {
         self.fd
@@ -69,6 +83,27 @@ impl UnixStream {
             return Err(ioerr(libc::EBADF));
         }
         with(|w| w.set_nonblocking(self.fd, nb)).map_err(ioerr)
+    }
+
+    pub fn shutdown(&self, how: std::net::Shutdown) -> io::Result<()> {
+        if self.epoch != world::epoch() {
+            return Err(ioerr(libc::EBADF));
+        }
+        let how = match how {
+            std::net::Shutdown::Read => world::How::Rd,
+            std::net::Shutdown::Write => world::How::Wr,
+            std::net::Shutdown::Both => world::How::RdWr,
+        };
+        with(|w| w.srv_shutdown(self.fd, how)).map_err(ioerr)
+    }
+
+    /// timeouts only matter for blocking descriptors; a blocking call that cannot complete is
+    /// reported by the simulation as "would block for ever" whatever the timeout
+    pub fn set_read_timeout(&self, _t: Option<std::time::Duration>) -> io::Result<()> {
+        Ok(())
+    }
+    pub fn set_write_timeout(&self, _t: Option<std::time::Duration>) -> io::Result<()> {
+        Ok(())
     }
 
     fn do_read(&self, buf: &mut [u8]) -> Result<usize, i32> {
